@@ -302,6 +302,16 @@ impl C08 {
     }
     fn fams(&self, ctx: &Ctx) -> Families {
         let t = ctx.tier;
+        if ctx.flavour == crate::sup::Flavour::Miri {
+            return Families::new(vec![
+                ("string-decode", 1 + 8 + 64 + 512),
+                ("token-sequences", 400),
+                ("adjacent-pairs", 200),
+                ("conservation-directed", DIRECTED_CONSERVATION.len() as u64),
+                ("conservation-programs", 60),
+                ("conservation-mutants", 200),
+            ]);
+        }
         Families::new(vec![
             ("string-decode", 1 + 8 + 64 + 512 + 4096),
             ("token-sequences", t.pick(60_000, 3_000_000)),
@@ -556,6 +566,15 @@ impl Check for C08 {
             }),
             assumptions: vec!["undefined escapes (\\q) and a number directly followed by a word are not generated (unspecified)".to_string()],
             inconclusive,
+        }
+    }
+
+    fn post(&mut self, ctx: &Ctx, merged: &mut Stats) {
+        // the tokenizer slices the input by byte offsets it maintains by hand: Miri checks every slice
+        if ctx.flavour == crate::sup::Flavour::Rel && ctx.tier == crate::sup::Tier::Thorough {
+            let mctx = Ctx { seed: ctx.seed, tier: ctx.tier, flavour: crate::sup::Flavour::Miri };
+            let n = self.fams(&mctx).total();
+            crate::sup::run_miri("C08", ctx, 0, n, 16, merged);
         }
     }
 }
